@@ -3,7 +3,9 @@
 extern "C" { int nondet_int(); }
 #define ASSUME(c) __CPROVER_assume(c)
 #define ASSERT(c, msg) __CPROVER_assert(c, msg)
+#ifndef LIT_MAXLEN
 #define LIT_MAXLEN 12
+#endif
 extern "C" { int CEX_len, CEX_digit[LIT_MAXLEN]; }
 // environment model of strtol for the inputs the scanner can produce (INT rule: 0|[1-9][0-9]*, decimal): value, saturating at LONG_MAX (C17 7.22.1.4)
 extern "C" long model_strtol(const char *s, char **end, int base) {
@@ -51,6 +53,6 @@ static std::string sym_literal(unsigned long &value) {
   value = (unsigned long)model_strtol(s.c_str(), 0, 10);      // same circuit as the call inside the code under test (shared by the encoder)
   // arithmetic lemma about the model (stated assumption, a theorem of decimal notation): an n-digit numeral denotes a value below 10^n
   static const unsigned long POW10[13] = {1UL, 10UL, 100UL, 1000UL, 10000UL, 100000UL, 1000000UL, 10000000UL, 100000000UL, 1000000000UL, 10000000000UL, 100000000000UL, 1000000000000UL};
-  ASSUME(value < POW10[n <= 12 ? n : 12]);
+  if (n <= 12) ASSUME(value < POW10[n]);      // (a twenty-digit literal is above LONG_MAX: strtol saturates, no lemma needed)
   return s;
 }
